@@ -82,6 +82,14 @@ func (rn *runner) account(cs *Case, res *evalRes) {
 	} else {
 		c.Hist["case:env-broken"]++
 		c.Hist[cs.Gen+":env-broken"]++
+		if cs.Gen == "g1" { // g1 leaves the assumptions only by a start-up catch-up whose finalised height goes backwards
+			if s := cs.Steps[0]; s.K == 'C' && s.Fin1 > s.Fin2 {
+				c.Hist["g1:env-broken:fin-backwards"]++
+			} else {
+				c.Hist["g1:env-broken:other"]++
+				c.Sample(map[string]string{"mode": "g1-env-broken-unexpected", "gen": cs.Gen, "line": res.line, "reply": res.reply})
+			}
+		}
 	}
 	c.Hist["reorg"] += cs.Reorgs
 	c.Hist["multi-event-block"] += cs.Multi
